@@ -123,6 +123,31 @@ pub fn yaml_events<R: Read>(reader: R) -> Vec<(u32, u64, u64)> {
 	yaml::events(reader)
 }
 
+/// A thread-local log of what the libyaml binding does with its resources:
+/// `(code, a, b, c)` records written by probes in `yaml/chunker/parser.rs`.
+///
+/// Codes: 1 parser initialized; 2 read state allocated; 3 about to copy
+/// `a` bytes into libyaml's buffer of size `b` from a bounce buffer of length
+/// `c`; 4 read refused (the reader reported more than the buffer of size `b`
+/// holds, or, when `a` is `u64::MAX`, failed); 5 parser about to be deleted; 6 read state
+/// about to be freed; 7 event initialized; 8 event about to be deleted.
+pub mod trace {
+	use std::cell::RefCell;
+
+	thread_local! {
+		static LOG: RefCell<Vec<(u8, u64, u64, u64)>> = const { RefCell::new(Vec::new()) };
+	}
+
+	pub(crate) fn log(code: u8, a: u64, b: u64, c: u64) {
+		LOG.with(|l| l.borrow_mut().push((code, a, b, c)));
+	}
+
+	/// Returns and clears the log of the current thread.
+	pub fn take() -> Vec<(u8, u64, u64, u64)> {
+		LOG.with(|l| std::mem::take(&mut *l.borrow_mut()))
+	}
+}
+
 /// The side of a failed transcode, with the original error values.
 pub enum TranscodeError<S, D> {
 	Ser(S, D),
